@@ -76,6 +76,31 @@ def handle (op : String) (args : List String) : Option (String × String) :=
     let lo ← parseBigInt lo; let hi ← parseBigInt hi; let incl ← parseNat incl; let t ← parseTape t
     let m := showR showBigInt t (UniformI.newSample P RP (incl != 0) lo hi t)
     pure (m, oRangeI lo.val (hi.val + (if incl = 0 then 0 else 1)) t)
+  -- api-coverage: `SampleUniform for BigUint/BigInt` through rand's generic front ends.
+  -- `gen_range(lo..hi)` = `Sampler::sample_single`; `gen_range(lo..=hi)` = provided `sample_single_inclusive`
+  -- = `new_inclusive(lo, hi).sample(rng)`; `Uniform::new/new_inclusive/from` = `Sampler::new/new_inclusive` + `sample`.
+  | "gen_range_u", [lo, hi, incl, t] => do
+    let lo ← parseLimbs lo; let hi ← parseLimbs hi; let incl ← parseNat incl; let t ← parseTape t
+    if (incl = 0 ∧ val lo ≥ val hi) ∨ (incl ≠ 0 ∧ val lo > val hi) then none else
+    let m := if incl = 0 then showR showLimbs t (UniformU.sampleSingle P RP lo hi t)
+             else showR showLimbs t (UniformU.newSample P RP true lo hi t)
+    pure (m, oRangeU (val lo) (val hi + (if incl = 0 then 0 else 1)) t)
+  | "gen_range_i", [lo, hi, incl, t] => do
+    let lo ← parseBigInt lo; let hi ← parseBigInt hi; let incl ← parseNat incl; let t ← parseTape t
+    if (incl = 0 ∧ lo.val ≥ hi.val) ∨ (incl ≠ 0 ∧ lo.val > hi.val) then none else
+    let m := if incl = 0 then showR showBigInt t (UniformI.sampleSingle P RP lo hi t)
+             else showR showBigInt t (UniformI.newSample P RP true lo hi t)
+    pure (m, oRangeI lo.val (hi.val + (if incl = 0 then 0 else 1)) t)
+  | "dist_uniform_u", [lo, hi, incl, t] => do
+    let lo ← parseLimbs lo; let hi ← parseLimbs hi; let incl ← parseNat incl; let t ← parseTape t
+    let inc := incl % 2 = 1
+    let m := showR showLimbs t (UniformU.newSample P RP inc lo hi t)
+    pure (m, oRangeU (val lo) (val hi + (if inc then 1 else 0)) t)
+  | "dist_uniform_i", [lo, hi, incl, t] => do
+    let lo ← parseBigInt lo; let hi ← parseBigInt hi; let incl ← parseNat incl; let t ← parseTape t
+    let inc := incl % 2 = 1
+    let m := showR showBigInt t (UniformI.newSample P RP inc lo hi t)
+    pure (m, oRangeI lo.val (hi.val + (if inc then 1 else 0)) t)
   | _, _ => none
 
 end NB.Drv.C18
